@@ -154,3 +154,14 @@ func runTime(step int64, n int, progs []prog) string {
 	}
 	return strings.Join(sb, " ")
 }
+
+// runCtor: NewWheel(step, n) — panics iff step <= 0 or n <= 0
+func runCtor(step int64, n int) string {
+	var w *loom.Wheel
+	if try(func() { w = loom.NewWheel(time.Duration(step), n) }) {
+		return "P"
+	}
+	_ = w.Close()
+	time.Sleep(1)
+	return "ok"
+}
